@@ -38,7 +38,65 @@ func runC05(c *Ctx) {
 	r.Rule("R3", "every mutating state.Tracker call in package client lies in a function reachable only by awaited edges from internal-table handlers or lifecycle functions (Enable/DisableStateTracking, connect initialisation)")
 	r.Rule("R6", "event loops of successive connections never overlap (shared with C03.R6): the teardown waits for the connection goroutines with the connection mutex held, member goroutines are started with it held - so the new session's state updates cannot run beneath a foreground handler of the old one")
 	r.Rule("R7", "no event is dispatched on a detached goroutine: every call of Conn.dispatch anywhere in package client is a plain or deferred call, never a go statement (a user handler running beside the event loop would see the tracker change under it)")
+	r.Rule("R8", "the tracker applies a line completely before its method returns: no go statement anywhere in package state (work left to a background goroutine is state a user handler can observe half-applied)")
+	r.Rule("R9", "the tracker user code holds is the tracker the state handlers update: Conn's tracker field is stored only by construction and by functions outside the connection life cycle (Enable/DisableStateTracking), never by anything reachable from the connect routine, the teardown, a connection goroutine or a handler")
 	c.loopExclusionRule("R6")
+	{
+		nGo, nFn := 0, 0
+		for _, fn := range c.ModFuncs {
+			if fn.Package() != c.State {
+				continue
+			}
+			nFn++
+			for _, cs := range CallSites(fn) {
+				if g, isGo := cs.(*ssa.Go); isGo {
+					nGo++
+					r.Add("R8", "state-go:"+c.FuncKey(fn), c.InstrPos(g), c.FuncKey(fn), "the tracker does its work synchronously", false, "go statement in "+c.FuncKey(fn))
+				}
+			}
+		}
+		r.Add("R8", "no-go-in-state", "-", "", fmt.Sprintf("none of the %d functions of package state starts a goroutine", nFn), nGo == 0, fmt.Sprintf("%d go statements", nGo))
+		r.Floor("R8", "functions of package state", nFn, 40)
+	}
+	{
+		roots := []*ssa.Function{a.Connect, a.Teardown, a.TeardownCore}
+		roots = append(roots, a.Members...)
+		for _, f := range a.IntTable {
+			roots = append(roots, f)
+		}
+		for _, f := range a.StTable {
+			roots = append(roots, f)
+		}
+		for _, f := range c.clientFuncs() {
+			// callers of the connect routine belong to the life cycle too
+			for _, cs := range CallSites(f) {
+				if cs.Common().StaticCallee() == a.Connect && f != a.Connect {
+					roots = append(roots, f)
+				}
+			}
+		}
+		reach := c.Closure(roots, nil)
+		nSt, nBad := 0, 0
+		for _, fn := range c.clientFuncs() {
+			funcInstrs(fn, func(in ssa.Instruction) {
+				st, ok := in.(*ssa.Store)
+				if !ok {
+					return
+				}
+				fv, base := fieldOf(st.Addr)
+				if fv != a.St || c.allOriginsLocalAlloc(base, fn) {
+					return
+				}
+				nSt++
+				_, inLife := reach.Funcs[fn]
+				if inLife {
+					nBad++
+				}
+				r.Add("R9", "tracker-store:"+c.FuncKey(fn), c.InstrPos(st), c.FuncKey(fn), "the tracker field changes only outside the connection life cycle", !inLife, "store to the tracker field in "+c.FuncKey(fn)+", reachable from the connection life cycle: "+c.ChainString(reach.Funcs[fn]))
+			})
+		}
+		r.Floor("R9", "stores to the tracker field of an existing Conn", nSt, 1)
+	}
 	{
 		n := 0
 		for _, fn := range c.clientFuncs() {
